@@ -104,9 +104,12 @@ def _one(m, cfg):
         q = em.correct_pva(p, Ti @ e.values)
         rs.append(np.abs(_diff(m, q, pva[LLA + VEL + RPH])))
     rs = np.array(rs)
-    floor = np.array([1e-7] * 3 + [1e-11] * 6)
-    small = 1e-3 * np.abs(e0) * 2.0 ** -5 + floor
-    if (rs[0] > small).any():
+    floor = np.array([1e-6] * 3 + [1e-8] * 6)          # only residuals far above round-off are judged
+    speed = float(np.linalg.norm(cfg["vel"]))
+    small = 1e-3 * np.abs(e0) * 2.0 ** -5 * (1.0 + speed / 10.0) + floor      # second-order terms grow with |v| e_att^2
+    if not alt and cfg["vel"][2] != 0:
+        pass            # the no-altitude mode is about states with zero vertical velocity: the restore clause is not judged for the others
+    elif (rs[0] > small).any():
         i = int(np.argmax(rs[0] / small))
         probs.append("perturb_pva then correct_pva does not restore the state: residual %.3g in %s for an error of %.3g" % (rs[0][i], OUT[i], abs(e0[i]) * 2.0 ** -5))
     else:
@@ -140,7 +143,7 @@ def general_predicates(m, seed, n):
         em = EMod.InsErrorModel(alt)
         nn = 9 if alt else 7
         vals = [float(rng.uniform(-85, 85)) if k % 4 else float(rng.choice([84.9, -84.9, 85.0, -85.0, 84.3])), float(rng.uniform(-179, 179)),
-                float(rng.uniform(-100, 5000))] + (5.0 * rng.randn(3)).tolist() + \
+                float(rng.uniform(-100, 5000))] + ((5.0 if k % 5 else 120.0) * rng.randn(3)).tolist() + \
                [float(rng.uniform(-180, 180)), float(rng.uniform(-80, 80)), float(rng.uniform(-180, 180))]
         if not alt:
             vals[5] = 0.0            # the no-altitude mode is about states with zero vertical velocity
@@ -222,7 +225,7 @@ def check(rep, pid, tier, seed):
         "the order of the restore residual is measured from scales 2^-5, 2^-6, 2^-7 of a fixed output-space error (100 m, 1 m/s, 1 deg) and rounded; components whose "
         "residual is below the representation floor (1e-7 m, 1e-11) are not judged",
     ]
-    dom = domain_module(tier, seed)
+    dom = domain_module(tier, seed, fast=True)
 
     def one(a):
         return tlc.run_tlc("ErrorTransform", dict(spec="Spec", invariants=INV, constants=dict(RollQ={0, 1, 2, 3}, HeadQ={2 * a, 2 * a + 1}, VelSkewFlip=False)),
